@@ -6,7 +6,6 @@ package schedulerplugin
 // API truth about pods is ghost state declared in /verif/contracts/external/k8s.spec.
 
 // ---- release policy of a pod (C03) ----
-//@ func constant.GetPool inline
 //@ func [C03,C18] parseReleasePolicy
 //@   ensures [C03:pool-pods-never-release] meta != nil && meta.Annotations != nil && ("tke.cloud.tencent.com/eni-ip-pool" in meta.Annotations) && meta.Annotations["tke.cloud.tencent.com/eni-ip-pool"] != "" ==> result == 2
 //@   ensures [C03:policy-from-annotation] meta != nil && meta.Annotations != nil && !("tke.cloud.tencent.com/eni-ip-pool" in meta.Annotations && meta.Annotations["tke.cloud.tencent.com/eni-ip-pool"] != "") ==> result == (("k8s.v1.cni.galaxy.io/release-policy" in meta.Annotations && meta.Annotations["k8s.v1.cni.galaxy.io/release-policy"] == "never") ? 2 : (("k8s.v1.cni.galaxy.io/release-policy" in meta.Annotations && meta.Annotations["k8s.v1.cni.galaxy.io/release-policy"] == "immutable") ? 1 : 0))
@@ -85,8 +84,6 @@ package schedulerplugin
 //@ func (*FloatingIPPlugin).shouldRelease noeffect
 //@ func (*FloatingIPPlugin).getReplicasOfDeployment noeffect
 //@ func parsePodIndex noeffect
-//@ func (*util.KeyObj).Deployment inline
-//@ func (*util.KeyObj).StatefulSet inline
 //@ pure listersOK(p *FloatingIPPlugin) bool = p.IPAMContext != nil && p.StatefulSetLister != nil && p.DeploymentLister != nil && p.crdKey != nil && p.crdCache != nil && p.dpLockPool != nil
 //@ func [C03,C04,C01] (*FloatingIPPlugin).unbindNoneDpPod
 //@   requires keyObj != nil && ipamOK(p) && listersOK(p)
@@ -127,3 +124,16 @@ package schedulerplugin
 //@   modifies all
 //@   loop 0 invariant ipamOK(p) && envOK(p) && listersOK(p) && noLocksHeld() && p.podLockPool != p.dpLockPool
 //@   loop 0 invariant forall i int :: 0 <= i && i < len(meta.allocatedIPs) ==> meta.allocatedIPs[i].keyObj != nil && meta.allocatedIPs[i].keyObj.KeyInDB != "" && meta.allocatedIPs[i].keyObj.KeyInDB == meta.allocatedIPs[i].fip.Key
+
+// ---- unbind: the pod event path (C04, C01, C10) ----
+// keyOfPod: the allocation key util.FormatKey computes for the pod object (its grammar is the
+// subject of the C11 contracts in pkg/ipam/schedulerplugin/util; here only its determinism is used)
+//@ uninterp keyOfPod(pod *v1.Pod) string
+//@ func [C04,C01,C10] (*FloatingIPPlugin).unbind
+//@   let K = keyOfPod(pod)
+//@   requires pod != nil && ipamOK(p) && envOK(p) && listersOK(p) && noLocksHeld() && p.podLockPool != p.dpLockPool
+//@   ensures ipamOK(p) && noLocksHeld()
+//@   ensures [C04,C01:unbind-only-own-key] otherKeysUntouched(K)
+//@   ensures [C04:unbind-spares-other-incarnation] forall k string :: old(StoreDom[k]) && old(StoreKey[k]) == K && old(StoreUid[k]) != "" && old(StoreUid[k]) != pod.UID ==> storeSameAt(k) && ProvNode[k] == old(ProvNode[k])
+//@   modifies all
+//@   loop 0 invariant ipamOK(p) && envOK(p) && listersOK(p) && p.podLockPool != p.dpLockPool && storeUnchanged()
